@@ -10,6 +10,7 @@ claimed = {
  "C19": ("proof", "Theorems over the regenerated Converse/Inverse tables, checker list and application loop of AddNilCheck, for all operators and all operand values (unbounded Z); the translator is validated by executing the Go functions.", "regenerated tables + Coq proofs (case split, lia)"),
  "C05": ("proof", "Coq theorems over the engine model M1 (transcription of inference/engine.go): conflict <-> a source reaches a sink, explanations are real paths, verdicts = reachable sets, order independence, termination; for all constraint sets and orders, no bound. The model is tied to the code by running the extracted model and the real Engine on the same scenarios (every observable compared) and by evaluating the statement itself on the real engine's outputs.", "Coq proof (invariants over a work-list semantics) + correspondence with the real engine"),
  "C06": ("proof", "Coq theorems over M1's export (chooseSitesToExport / inferredValDiff / Export): verdicts of exported sites kept, increment omits upstream information, Export never panics; convexity and downstream equivalence are validated by correspondence and by comparing modular with whole-graph analysis on the real engine (known finding F15 outside the claimed domain).", "Coq proof + correspondence (export set, fact, gob round trip) + modular-vs-whole-graph oracle on the real engine"),
+ "C12": ("proof", "Coq theorems over the scope model (transcription of config.Config.IsPkgInScope / flag parsing / IsFileInScope): in scope iff some include prefix and no exclude prefix matches, exclude wins, empty include = all, flag pieces; plus an obligation over the REGENERATED inventory of analysis.Analyzer values: every analyzer that can publish facts or findings starts with the package-scope guard. Tied by correspondence with the real flag set + IsPkgInScope and by whole-tool runs of a 3-package module under 8 configurations (no diagnostics, no InferredMap/Contracts/Cache facts out of scope; docstring-excluded file contributes nothing).", "Coq proof + regenerated analyzer inventory + correspondence + whole-tool scope suite"),
  "C11": ("proof", "Coq theorems over the diagnostics model M2 (transcription of diagnostic/engine.go, conflict.go): for both grouping values the conflicts shown (as a position or in exactly one other-places list) are exactly the conflicts not on a suppressed line -- for all conflict lists and ranges. Tied by correspondence with the real diagnostic engine (synthetic conflicts through a verif hook), a ground-truth location oracle, and generated modules with every nolint spelling/placement through the whole tool (incl. cross-package reports).", "Coq proof (permutation/partition lemmas) + correspondence + whole-tool nolint suite"),
  "C13": ("proof", "Coq theorems over M2: grouping partitions the ungrouped output, counts equal list lengths, grouped members share the nil-source key and heads are pairwise distinct. Tied by correspondence and ground-truth oracles on the real engine; the pretty-printing half is decided by an oracle on the real PrettyPrintErrorMessage (known finding F9: matched quotes are dropped).", "Coq proof + correspondence + oracles on real output"),
  "C14": ("proof", "Partial. Coq theorems: reported position = position of the last non-nil step, flows are non-empty and complete, and toPos yields a valid position on the same line for EVERY line number (over the regenerated _fakeFileMaxLines and guards of toPos; finding F16 repaired). File system and drivers are outside any model: decided by a coherence oracle over real diagnostics (both path-printing modes).", "Coq proof over regenerated constants + correspondence + whole-tool coherence oracle"),
